@@ -30,6 +30,7 @@ def _compile(pattern):
     node = mod.body[0]
     if isinstance(node, ast.Expr):
         node = node.value
+    node = alpha.canon(node)        # same canonical spelling of comparisons as the normalised program
     _cache[pattern] = node
     return node
 
